@@ -389,7 +389,7 @@ func main() {
 	run := hx.Start()
 	r := run.Rng
 	ps := prims()
-	perPrim := run.Scale(150, 3000)
+	perPrim := run.Scale(150, 600)
 	// fixed regression cases: arrays longer than the pre-allocation cap round-trip completely
 	for _, p := range ps {
 		if p.name != "strings" && p.name != "varints" {
@@ -462,7 +462,7 @@ func main() {
 		}
 	}
 	// explicit maxima: stringmax / byteslen
-	for i := 0; i < run.Scale(300, 5000); i++ {
+	for i := 0; i < run.Scale(300, 1500); i++ {
 		max := hx.Pick(r, []int{0, 1, 2, 16, 20, 255, 256, 32767})
 		b := genBytes(r, 300)
 		if r.Chance(1, 3) {
